@@ -2,8 +2,9 @@ package main
 
 // C01.R10 — a setter writes its destination on every path that has a value.
 //
-// Setter role: a package function without results whose first two parameters
-// are reflect.Values (destination, value) — SetValue and whatever a
+// Setter role: a package function with no result (or just an error) whose first
+// parameter is the destination reflect.Value and whose second is the value
+// (a reflect.Value or an interface{}) — SetValue and whatever a
 // refactoring splits off it.  Obligation per setter: every path from the entry
 // to a return passes (i) a reflect Set* call whose receiver derives from the
 // destination parameter, or (ii) a call that hands the destination on (the
@@ -14,6 +15,7 @@ package main
 import (
 	"fmt"
 	"go/token"
+	"go/types"
 	"strings"
 
 	"golang.org/x/tools/go/ssa"
@@ -22,10 +24,15 @@ import (
 func (w *World) ruleSettersWrite(r *Report, rule string, min int) {
 	n := 0
 	for _, fn := range w.SrcFuncs() {
-		if fn.Parent() != nil || len(fn.Params) < 2 || fn.Signature.Results().Len() != 0 || fn.Signature.Recv() != nil {
+		if fn.Parent() != nil || len(fn.Params) != 2 || fn.Signature.Recv() != nil || fn.Blocks == nil {
 			continue
 		}
-		if !isReflectValue(fn.Params[0]) || !isReflectValue(fn.Params[1]) || fn.Blocks == nil {
+		// (dest reflect.Value, value reflect.Value | interface{}) with no result or just an error
+		res := fn.Signature.Results()
+		if !(res.Len() == 0 || (res.Len() == 1 && isErrorType(res.At(0).Type()))) {
+			continue
+		}
+		if _, isIface := fn.Params[1].Type().Underlying().(*types.Interface); !isReflectValue(fn.Params[0]) || !(isReflectValue(fn.Params[1]) || isIface) {
 			continue
 		}
 		// values derived from a parameter: the parameter, φ of derived values,
@@ -101,6 +108,24 @@ func (w *World) ruleSettersWrite(r *Report, rule string, min int) {
 			if u, ok := cond.(*ssa.UnOp); ok && u.Op == token.NOT {
 				cond, neg = u.X, true
 			}
+			// `value == nil` on an interface-typed value: nothing to set on the nil side
+			if bo, isBo := cond.(*ssa.BinOp); isBo && (bo.Op == token.EQL || bo.Op == token.NEQ) {
+				other := bo.X
+				if isNilConst(bo.X) {
+					other = bo.Y
+				} else if !isNilConst(bo.Y) {
+					continue
+				}
+				if other != ssa.Value(fn.Params[1]) {
+					continue
+				}
+				side := 0
+				if (bo.Op == token.NEQ) != neg {
+					side = 1
+				}
+				excused[[2]*ssa.BasicBlock{b, b.Succs[side]}] = true
+				continue
+			}
 			c, ok := cond.(*ssa.Call)
 			if !ok || calleeName(&c.Call) != "IsValid" || len(c.Call.Args) == 0 || !val[c.Call.Args[0]] {
 				continue
@@ -120,6 +145,12 @@ func (w *World) ruleSettersWrite(r *Report, rule string, min int) {
 			}
 			seen[b] = true
 			if ret, ok := b.Instrs[len(b.Instrs)-1].(*ssa.Return); ok {
+				if len(ret.Results) == 1 && w.nonNilErr(ret.Results[0], nil, nil, 0) {
+					return // a reported failure
+				}
+				if len(ret.Results) == 1 && !isNilConst(ret.Results[0]) {
+					return // an error handed up from a callee (whether it is consumed is C01.R7)
+				}
 				badRet = ret
 				return
 			}
